@@ -75,4 +75,65 @@ theorem C02_iteration_is_source (m : Meta) (asg : List (String × String)) (name
   | metaLabel k => cases h : lookupS m.labels k <;> simp [buildMap, found, h]
   | illegal => cases viaIndex <;> simp [buildMap, found]
 
+/-- the whole loop written with the generated guards: every declared parameter (with what its reference parsed to and how) is one
+    `stepGen`; the first error ends the loop, otherwise the entries are kept in declaration order and the counts add up -/
+def loopGen (m : Meta) (asg : List (String × String)) (d : Bool) : List ((String × Ref) × Bool) → Except Err (List (String × String) × Nat)
+  | [] => .ok ([], 0)
+  | ((name, ref), viaIndex) :: rest =>
+    match stepGen m asg ref viaIndex d with
+    | .error e => .error e
+    | .ok (v, c) =>
+      match loopGen m asg d rest with
+      | .error e => .error e
+      | .ok (ps, n) => .ok ((name, v) :: ps, n + c)
+
+set_option linter.unusedSimpArgs false in
+/-- one step of the model's loop is the step written with the generated guards, with the rest of the loop left open -/
+theorem buildMap_cons_stepGen (m : Meta) (asg : List (String × String)) (name : String) (ref : Ref) (viaIndex d : Bool)
+    (rest : List (String × Ref)) :
+    buildMap m asg ((name, ref) :: rest) =
+      match stepGen m asg ref viaIndex d with
+      | .error e => .error e
+      | .ok (v, c) =>
+        match buildMap m asg rest with
+        | .error e => .error e
+        | .ok (ps, n) => .ok ((name, v) :: ps, n + c) := by
+  unfold stepGen tplG consumeGuard errNotAssignedGuard errIllegalRefGuard errNoAnnotationGuard errNoLabelGuard useFoundValueGuard
+    useNameGuard useNamespaceGuard useKindGuard useAPIVersionGuard
+  cases ref with
+  | assign r => cases h : lookupLast asg r <;> simp [buildMap, found, h] <;> (rcases buildMap m asg rest with e | ⟨ps, n⟩ <;> rfl)
+  | metaName => simp [buildMap, found] <;> (rcases buildMap m asg rest with e | ⟨ps, n⟩ <;> rfl)
+  | metaNamespace => simp [buildMap, found] <;> (rcases buildMap m asg rest with e | ⟨ps, n⟩ <;> rfl)
+  | metaKind => simp [buildMap, found] <;> (rcases buildMap m asg rest with e | ⟨ps, n⟩ <;> rfl)
+  | metaAPIVersion => simp [buildMap, found] <;> (rcases buildMap m asg rest with e | ⟨ps, n⟩ <;> rfl)
+  | metaAnnotation k => cases h : lookupS m.annotations k <;> simp [buildMap, found, h] <;> (rcases buildMap m asg rest with e | ⟨ps, n⟩ <;> rfl)
+  | metaLabel k => cases h : lookupS m.labels k <;> simp [buildMap, found, h] <;> (rcases buildMap m asg rest with e | ⟨ps, n⟩ <;> rfl)
+  | illegal => cases viaIndex <;> simp [buildMap, found] <;> (rcases buildMap m asg rest with e | ⟨ps, n⟩ <;> rfl)
+
+/-- **C02_loop_is_source**: for every list of declared parameters (any length, any mix of references, any way an illegal
+    reference came about, any value of the lookups that are not made) the model's loop is the iteration of the step that decides
+    under the regenerated path conditions -/
+theorem C02_loop_is_source (m : Meta) (asg : List (String × String)) (d : Bool) (ps : List ((String × Ref) × Bool)) :
+    buildMap m asg (ps.map (·.1)) = loopGen m asg d ps := by
+  induction ps with
+  | nil => simp [buildMap, loopGen]
+  | cons p rest ih =>
+    obtain ⟨⟨name, ref⟩, viaIndex⟩ := p
+    simp only [List.map_cons]
+    rw [buildMap_cons_stepGen m asg name ref viaIndex d, loopGen, ih]
+
+/-- **C02_placeholders_is_source**: `applyParameters` as a whole — the loop of generated steps, then the count check against the
+    number of assignments (the check after the loop is the model's; see DESIGN §10) -/
+theorem C02_placeholders_is_source (m : Meta) (asg : List (String × String)) (d : Bool) (ps : List ((String × Ref) × Bool)) :
+    placeholders m asg (ps.map (·.1)) =
+      match loopGen m asg d ps with
+      | .error e => .error e
+      | .ok (es, n) => if asg.length ≠ n then .error .notInTrialParameters else .ok (dedupLast es) := by
+  unfold placeholders; rw [C02_loop_is_source m asg d ps]
+  rcases loopGen m asg d ps with e | ⟨es, n⟩ <;> rfl
+
+/-- non-vacuity: a two-parameter loop with one assignment and one metadata reference goes through both steps -/
+example : loopGen { trialName := "t", trialNamespace := "ns", kind := "Job", apiVersion := "batch/v1", annotations := [], labels := [] }
+    [("lr", "0.1")] false [(("a", .assign "lr"), false), (("b", .metaName), false)] = .ok ([("a", "0.1"), ("b", "t")], 1) := by rfl
+
 end Katib.Gen
